@@ -183,12 +183,21 @@ class Run:
     """One real Solver on a LoggedProblem, with a recording listener and captured stdout."""
 
     def __init__(self, recipe, params, refine=False, record=True, listeners=(), default_params=False,
-                 clock=None, max_calls="auto", sp_obj=None):
+                 clock=None, max_calls="auto", sp_obj=None, problem_obj=None):
         from iOpt.solver import Solver
         from iOpt.solver_parametrs import SolverParameters
         self.recipe, self.params = recipe, params
         self.n = recipe.get("n")
-        if "shipped" in recipe:
+        if problem_obj is not None:
+            # a problem object the caller also hands to other solvers
+            self.problem = problem_obj
+            if "shipped" in recipe:
+                recipe = dict(recipe, n=self.problem.numberOfFloatVariables,
+                              lower=[float(v) for v in self.problem.lowerBoundOfFloatVariables],
+                              upper=[float(v) for v in self.problem.upperBoundOfFloatVariables])
+                self.recipe = recipe
+                self.n = recipe["n"]
+        elif "shipped" in recipe:
             from vlib.objectives import LoggedShipped, make_shipped
             self.problem = LoggedShipped(make_shipped(*recipe["shipped"]), clock=clock)
             recipe = dict(recipe, n=self.problem.numberOfFloatVariables,
